@@ -1361,9 +1361,18 @@ impl Session {
             );
             #[cfg(feature = "verif")]
             crate::verif::point("psd.before_select").await;
+            // Register for the close notification before looking at the flag:
+            // notify_waiters() stores no permit, so a close() that ran while this
+            // task was busy (or before it first got here) would otherwise be missed.
+            let closed = close_notify.notified();
+            tokio::pin!(closed);
+            closed.as_mut().enable();
+            if self.is_closed() {
+                break;
+            }
             let result = tokio::select! {
                 biased;
-                _ = close_notify.notified() => {
+                _ = &mut closed => {
                     tracing::debug!(
                         session_id = session_id,
                         "[Session] process_stream_data: Received close notification (iteration {})",
